@@ -514,9 +514,14 @@ class SequenceBasedRoutingProblem(RoutingProblem):
 
         # construct and save feasible solution
         self.enumerate_variables()
-        self.feasible_solution = np.zeros(self.num_variables)
+        feasible_solution = np.zeros(self.num_variables)
         for seq in used_sequences:
-            self.feasible_solution[self.get_var_index(*seq)] = 1
+            var_index = self.get_var_index(*seq)
+            if var_index is None:
+                # (indexing with None would silently set every entry)
+                raise ValueError(f"Construction heuristic failed: {seq} is not a variable")
+            feasible_solution[var_index] = 1
+        self.feasible_solution = feasible_solution
         return
 
     def get_objective_data(self):
